@@ -9,7 +9,8 @@ patch=$wt/SEED/patch.diff
 [ -f "$patch" ] || { echo "no patch"; exit 2; }
 ( cd $wt && git checkout -q -- . && git apply $patch && go build ./... && go test -vet=off -count=1 $(go list ./... | grep -v /SEED) 2>&1 | grep -v "^ok\|no test files" ; echo "tests-with-patch rc=${PIPESTATUS[0]}"; git checkout -q -- . )
 cd /repo && git status --short | grep -v '^??' && { echo "/repo dirty"; exit 2; }
-git -C /repo apply $patch || { echo "patch does not apply to /repo"; exit 2; }
+git -C /repo apply $patch 2>/dev/null || git -C /repo apply --3way $patch || { echo "patch does not apply to /repo"; exit 2; }
+git -C /repo reset -q
 for id in "$@"; do
   ( cd /verif && ./check $id ${TIER:-quick} 2>&1 | cut -c1-220 | grep -E "^VIOLATION|^OK|^KNOWN|INFRA|inconclusive" | head -6; echo "check $id rc=${PIPESTATUS[0]}" )
 done
